@@ -24,8 +24,8 @@ impl<T> Recombinator<[Vec<T>; 2]> for TwoPointXo {
             return Err(DifferentGenomeLength(len, second_genome.len()));
         }
 
-        let mut first = rng.random_range(0..len);
-        let mut second = rng.random_range(0..len);
+        let mut first = rng.random_range(0..=len);
+        let mut second = rng.random_range(0..=len);
         if second < first {
             (first, second) = (second, first);
         }
@@ -77,8 +77,8 @@ where
             return Err(DifferentGenomeLength(len, second_genome.size()).into());
         }
 
-        let mut first = rng.random_range(0..len);
-        let mut second = rng.random_range(0..len);
+        let mut first = rng.random_range(0..=len);
+        let mut second = rng.random_range(0..=len);
         if second < first {
             (first, second) = (second, first);
         }
